@@ -449,6 +449,8 @@ func (v *View) checkC08(res *Result) {
 	}
 	for idx, e := range v.Ev {
 		switch e.Kind {
+		case "break.reached":
+			res.Obs["c08.holds_reached"]++ // a goroutine was held at a hold point and a racing event fired
 		case "cb.promote":
 			res.Obs["c08.promotes"]++
 			if P[e.Inst] > D[e.Inst] && !v.inStopAt(e.Inst, idx) {
